@@ -1000,6 +1000,13 @@ pub fn run_sub_process(run: &mut Run, bin: &str, parts: &[&str]) {
         Err(e) => infra(&format!("cannot run {bin}: {e}")),
     };
     if code == 2 {
+        if !run.violations.is_empty() {
+            // the verdict already reached in this process stands; the other profile adds nothing
+            println!("note: the {} sub-process was inconclusive; reporting the violations found in this process", parts.join(","));
+            run.assume("fast-profile sub-process inconclusive in this run (violations of this process reported)");
+            let _ = std::fs::remove_file(&out);
+            return;
+        }
         infra("sub-process run was inconclusive");
     }
     let v: Value = std::fs::read_to_string(&out)
